@@ -124,4 +124,45 @@ def subjLine (line : String) : String :=
   | some (.list (.atom "case" :: .atom id :: _)) => id ++ " -"
   | _ => "PARSE-ERROR " ++ line
 
+/-- `(case ID [(subject a plain)] (conn x KIND SRC) step...)`, SRC = `(ref a)` (hot) or `(cold tag ev...)`, every
+    subscription `(sub (ref x) (react))` -/
+def connLine (line : String) : String :=
+  match Sexp.parse line with
+  | some (.list (.atom "case" :: .atom id :: steps)) =>
+    let (hotName, rest) : Option String × List Sexp := match steps with
+      | .list [.atom "subject", .atom a, .atom "plain"] :: r => (some a, r)
+      | r => (none, r)
+    match rest with
+    | .list [.atom "conn", .atom x, .atom kind, srcE] :: drive =>
+      let src : Option ConnM.Src := match srcE, hotName with
+        | .list [.atom "ref", .atom a], some h => if a == h then some .hot else none
+        | .list (.atom "cold" :: _ :: evs), _ => (evs.mapM parseEv).map .cold
+        | _, _ => none
+      let rec go (ss : List Sexp) (next : Nat) (acc : List ConnM.Call) : Option (List ConnM.Call × Nat) :=
+        match ss with
+        | [] => some (acc.reverse, next)
+        | .list [.atom "sub", .list [.atom "ref", .atom n], .list [.atom "react"]] :: r =>
+          if n == x then go r (next + 1) (.subscribe next :: acc) else none
+        | .list [.atom "unsub", u] :: r => match u.asNat with
+          | some u => go r next (.unsubscribe u :: acc)
+          | none => none
+        | .list [.atom "connect", .atom n] :: r => if n == x then go r next (.connect :: acc) else none
+        | .list [.atom "disconnect", .atom n] :: r => if n == x then go r next (.disconnect :: acc) else none
+        | .list [.atom "hnext", .atom n, v] :: r => match parseData v with
+          | some d => if some n == hotName then go r next (.srcNext d :: acc) else none
+          | none => none
+        | .list [.atom "herror", .atom n, e] :: r => match e.asNat with
+          | some e => if some n == hotName then go r next (.srcError e :: acc) else none
+          | none => none
+        | .list [.atom "hcomplete", .atom n] :: r => if some n == hotName then go r next (.srcComplete :: acc) else none
+        | _ => none
+      match ConnM.parseKind kind, src, go drive 0 [] with
+      | some k, some s, some (cs, n) =>
+        let st := ConnM.run k s cs
+        id ++ " | " ++ " ".intercalate ((List.range n).flatMap fun o => (ConnM.logOf st o).map fun e => "s" ++ toString o ++ ":" ++ e.toStr) ++
+          " | subs=" ++ toString (ConnM.sourceSubscriptions st) ++ " reg=" ++ toString (SubjM.registered st.sub).length
+      | _, _, _ => id ++ " -"
+    | _ => id ++ " -"
+  | _ => "PARSE-ERROR " ++ line
+
 end Rx.CombEval
